@@ -369,9 +369,19 @@ fn exercised(input: &str) -> u32 {
             Some(cs[i as usize])
         }
     };
+    // Under Emacs character syntax a `?c` literal ends after the character, so
+    // whatever follows it in the same word starts a new token: after a `?`
+    // nothing in the rest of the word counts as "inside a token".
+    let mut q_in_word = false;
     for i in 0..cs.len() {
         let c = cs[i];
-        let prev_c = at(i as isize - 1).map_or(false, is_c);
+        if !is_c(c) {
+            q_in_word = false;
+        }
+        let prev_c = at(i as isize - 1).map_or(false, is_c) && !q_in_word;
+        if c == '?' {
+            q_in_word = true;
+        }
         let next_c = at(i as isize + 1).map_or(false, is_c);
         match c {
             ':' => {
@@ -614,11 +624,204 @@ fn random_token(rng: &mut crate::rng::Rng) -> String {
     }
 }
 
+// ---------------------------------------------------------------- options API
+//
+// The option *set* is what governs the reading, however it was assembled: the
+// builder calls commute, `with_keyword_syntaxes` takes a set (order and
+// repetition are immaterial), `with_keyword_syntax` adds one member, and the
+// query methods report what was set. `Options::default()` and
+// `Options::elisp()` are the documented named sets.
+
+const PROBES: &[&str] = &[
+    "nil", "t", ":a", "a:", "#:a", "[1 2]", "?a", "#%a", "1+", "12ab", "\"\\x41;\"", "\"\\101\"", "(nil t :k k: #:k [x] #%r 1x)", "'nil", "#\\a", "(a . [b])",
+    "1e+3", "-", "+5", "#t", "#f", "()", "#u8(1 2)", "\"\\N{U+41}\"", "?\\C-a",
+];
+
+fn probe_readings(o: lexpr::parse::Options) -> Vec<String> {
+    PROBES.iter().map(|p| result_key(&lexpr::from_str_custom(p, o))).collect()
+}
+
+fn getters(o: lexpr::parse::Options) -> String {
+    use lexpr::parse::KeywordSyntax as K;
+    format!(
+        "kw(prefix={},postfix={},octothorpe={}) nil={:?} t={:?} brackets={:?} string={:?} char={:?} racket={} digit={}",
+        o.keyword_syntax(K::ColonPrefix),
+        o.keyword_syntax(K::ColonPostfix),
+        o.keyword_syntax(K::Octothorpe),
+        o.nil_symbol(),
+        o.t_symbol(),
+        o.brackets(),
+        o.string_syntax(),
+        o.char_syntax(),
+        o.racket_hash_percent_symbols(),
+        o.leading_digit_symbols()
+    )
+}
+
+fn expected_getters(q: &Q) -> String {
+    format!(
+        "kw(prefix={},postfix={},octothorpe={}) nil={} t={} brackets={} string={} char={} racket={} digit={}",
+        q.kw & KW_PREFIX != 0,
+        q.kw & KW_POSTFIX != 0,
+        q.kw & KW_OCTO != 0,
+        match q.nil {
+            crate::opts::QNil::Symbol => "Default",
+            crate::opts::QNil::EmptyList => "EmptyList",
+            crate::opts::QNil::Special => "Special",
+        },
+        if q.t_true { "True" } else { "Default" },
+        if q.brackets_vector { "Vector" } else { "List" },
+        if q.string == Syn::Elisp { "Elisp" } else { "R6RS" },
+        if q.chr == Syn::Elisp { "Elisp" } else { "R6RS" },
+        q.racket,
+        q.digit
+    )
+}
+
+/// Assemble the option set of `q` by a random route through the builder API.
+fn assemble(q: &Q, rng: &mut crate::rng::Rng) -> (lexpr::parse::Options, String) {
+    use lexpr::parse::{Brackets, KeywordSyntax as K, NilSymbol, Options, TSymbol};
+    use lexpr::parse::{CharSyntax, StringSyntax};
+    let mut route = Vec::new();
+    // start from any of the three constructors: every field is overwritten below
+    let mut o = match rng.below(3) {
+        0 => {
+            route.push("new".to_string());
+            Options::new()
+        }
+        1 => {
+            route.push("default".to_string());
+            Options::default()
+        }
+        _ => {
+            route.push("elisp".to_string());
+            Options::elisp()
+        }
+    };
+    let members: Vec<K> = [(KW_PREFIX, K::ColonPrefix), (KW_POSTFIX, K::ColonPostfix), (KW_OCTO, K::Octothorpe)].iter().filter(|(b, _)| q.kw & b != 0).map(|(_, k)| *k).collect();
+    let mut steps: Vec<u8> = (0..8).collect();
+    rng.shuffle(&mut steps);
+    for st in steps {
+        match st {
+            0 => {
+                // keyword set: as a set with repetitions in random order, or reset + one by one
+                if rng.bool() {
+                    let mut list = members.clone();
+                    for _ in 0..rng.below(4) {
+                        if !members.is_empty() {
+                            list.push(*rng.pick(&members));
+                        }
+                    }
+                    rng.shuffle(&mut list);
+                    route.push(format!("with_keyword_syntaxes({:?})", list));
+                    o = if rng.bool() { o.with_keyword_syntaxes(list.iter()) } else { o.with_keyword_syntaxes(list) };
+                } else {
+                    route.push("with_keyword_syntaxes([])".to_string());
+                    o = o.with_keyword_syntaxes(Vec::<K>::new());
+                    let mut list = members.clone();
+                    if !members.is_empty() && rng.bool() {
+                        list.push(*rng.pick(&members));
+                    }
+                    rng.shuffle(&mut list);
+                    for k in list {
+                        route.push(format!("with_keyword_syntax({:?})", k));
+                        o = o.with_keyword_syntax(k);
+                    }
+                }
+            }
+            1 => {
+                o = o.with_nil_symbol(match q.nil {
+                    crate::opts::QNil::Symbol => NilSymbol::Default,
+                    crate::opts::QNil::EmptyList => NilSymbol::EmptyList,
+                    crate::opts::QNil::Special => NilSymbol::Special,
+                });
+                route.push("nil".into());
+            }
+            2 => {
+                o = o.with_t_symbol(if q.t_true { TSymbol::True } else { TSymbol::Default });
+                route.push("t".into());
+            }
+            3 => {
+                o = o.with_brackets(if q.brackets_vector { Brackets::Vector } else { Brackets::List });
+                route.push("brackets".into());
+            }
+            4 => {
+                o = o.with_string_syntax(if q.string == Syn::Elisp { StringSyntax::Elisp } else { StringSyntax::R6RS });
+                route.push("string".into());
+            }
+            5 => {
+                o = o.with_char_syntax(if q.chr == Syn::Elisp { CharSyntax::Elisp } else { CharSyntax::R6RS });
+                route.push("char".into());
+            }
+            6 => {
+                o = o.with_racket_hash_percent_symbols(q.racket);
+                route.push("racket".into());
+            }
+            _ => {
+                o = o.with_leading_digit_symbols(q.digit);
+                route.push("digit".into());
+            }
+        }
+    }
+    (o, route.join(" . "))
+}
+
+fn case_options_api(rep: &mut Report, rng: &mut crate::rng::Rng, qi: usize) {
+    let q = Q::from_index(qi);
+    let reference = q.to_lexpr();
+    let want_get = expected_getters(&q);
+    let want_read = probe_readings(reference);
+    for round in 0..4 {
+        let (o, route) = if round == 0 { (reference, "reference route".to_string()) } else { assemble(&q, rng) };
+        rep.eval();
+        rep.distinct(hash2(hash_str(&route), qi as u64));
+        let g = getters(o);
+        if g != want_get {
+            rep.violation(
+                "options-api",
+                "C08:options-api:query-methods-disagree-with-builder".into(),
+                format!("option set {} assembled by [{}]: query methods report {} instead of {}", q.describe(), route, g, want_get),
+                json!({"q_index": qi, "route": route}),
+            );
+            return;
+        }
+        let got = probe_readings(o);
+        if let Some(i) = (0..PROBES.len()).find(|&i| got[i] != want_read[i]) {
+            rep.violation(
+                "options-api",
+                "C08:options-api:assembly-route-changes-reading".into(),
+                format!("option set {} assembled by [{}] reads {:?} as {} but assembled by the reference route reads it as {}", q.describe(), route, PROBES[i], got[i], want_read[i]),
+                json!({"q_index": qi, "route": route, "probe": PROBES[i]}),
+            );
+            return;
+        }
+        rep.count("options-api:routes-agree");
+    }
+    // the two named sets
+    for (name, o, qn) in [("Options::default()", lexpr::parse::Options::default(), Q::default_()), ("Options::elisp()", lexpr::parse::Options::elisp(), Q::elisp())] {
+        if qi != qn.index() {
+            continue;
+        }
+        rep.eval();
+        let (g, r) = (getters(o), probe_readings(o));
+        if g != want_get || r != want_read {
+            rep.violation(
+                "options-api",
+                format!("C08:options-api:named-set-differs:{}", name),
+                format!("{} reports {} (documented: {}); probe readings {}", name, g, want_get, if r == want_read { "agree" } else { "differ" }),
+                json!({"q_index": qi, "named": name}),
+            );
+        }
+        rep.count("options-api:named-sets-checked");
+    }
+}
+
 pub fn sets(ctx: &Ctx) -> Vec<CaseSet> {
     let nt = TOKENS.len();
     let nc = CONTEXTS.len();
     let n_random = ctx.size(250, 4_000);
     vec![
+        CaseSet::new("options-builder-and-query-api-x-all-option-sets", N_Q as u64, Box::new(move |rep, rng, case| case_options_api(rep, rng, case as usize))),
         CaseSet::new(
             "random-tokens-x-contexts-x-all-option-sets",
             n_random,
